@@ -316,7 +316,7 @@ def run_chunk(chunk, ctx):
         run_text(name, fmt, text, ctx, True, "seed", nontrivial=False)
         for epname, fn in entry_points(name, fmt, True).items():
             st, v, nlines = budgeted(lambda: fn(text), BUDGET)
-            if st != "ok":
+            if st != "ok" and not (st == "exc" and isinstance(v, ValueError) and any(str(v).startswith(q) for q in NO_DATA)):
                 raise RuntimeError("seed %s does not parse through %s: %r" % (name, epname, v))
             ctx.maximum("max_lines_executed_on_a_valid_seed", nlines)
         for i in range(len(text)):
